@@ -534,6 +534,7 @@ func checkC19(p *Prog, res *Result, tier string) {
 	res.rule("C19-R1", "guarded fields are accessed with their guard held (exclusive for writes)", 40)
 	res.rule("C19-R2", "no slice window of a guarded array escapes the critical section", 1)
 	res.rule("C19-R3", "skip-list / list elements are dereferenced only under the owning lock", 4)
+	res.rule("C19-R5", "no self-deadlock: a mutex is never (re)acquired exclusively on a path on which the same goroutine already holds it, directly or through a called repo function", 1)
 	res.rule("C19-R4", "post-construction writes to fields of mutex-less types are atomic or confined (frozen table)", 5)
 
 	lc := p.lockContext()
@@ -726,6 +727,9 @@ func checkC19(p *Prog, res *Result, tier string) {
 		inOwner[fv] = true
 	}
 	checkUnguardedTypes(p, res, inOwner)
+	// ---- R5: self-deadlock ----
+	checkSelfDeadlock(p, p.lockContext(), res, "C19-R5")
+
 }
 
 // checkElementAccess: in packages that own a skip list / list behind a mutex, every call into the container
@@ -1391,4 +1395,111 @@ func (p *Prog) lockContext() *lockCtx {
 
 	p.lockCache = lc
 	return lc
+}
+
+
+// checkSelfDeadlock: sync.Mutex / RWMutex are not reentrant. A Lock() reached while the same mutex of the same object
+// is already held (exclusively or shared) by the goroutine blocks forever; an RLock() reached under the exclusive lock
+// does, too. Looked for inside one function and across one static call (the callee's lock calls, with the callee's
+// object translated from the argument it is rooted in; a lock call of the callee that is switched off by a constant
+// bool argument of this call is skipped).
+func checkSelfDeadlock(p *Prog, lc *lockCtx, res *Result, rule string) {
+	n := 0
+	violations := 0
+	for _, f := range p.AllFuncs {
+		if f.Synthetic != "" || f.Pkg == nil || !strings.HasPrefix(f.Pkg.Pkg.Path(), modPath) {
+			continue
+		}
+		own := mutexCallsIn(p, f)
+		// (a) inside f
+		for _, l := range own {
+			if l.deferred || (l.kind != "Lock" && l.kind != "RLock") {
+				continue
+			}
+			n++
+			held := lkNone
+			for _, e := range own {
+				if e.ins == l.ins || e.mutex != l.mutex || e.obj != l.obj || e.deferred || (e.kind != "Lock" && e.kind != "RLock") {
+					continue
+				}
+				if !instrDominates(e.ins, l.ins) {
+					continue
+				}
+				released := false
+				for _, u := range own {
+					if u.mutex == l.mutex && u.obj == l.obj && !u.deferred && (u.kind == "Unlock" || u.kind == "RUnlock") && instrDominates(e.ins, u.ins) && instrDominates(u.ins, l.ins) {
+						released = true
+					}
+				}
+				if !released {
+					if e.kind == "Lock" {
+						held = lkExcl
+					} else if held < lkRead {
+						held = lkRead
+					}
+				}
+			}
+			if held != lkNone && (l.kind == "Lock" || held == lkExcl) {
+				violations++
+				res.bad(rule, fmt.Sprintf("%s: %s of %s while it is already held", funcName(f), l.kind, l.mutex.Name()), p.pos(l.ins.Pos()), "the mutex is acquired again on a path on which this goroutine already holds it ("+lkName(held)+"): sync mutexes are not reentrant, the goroutine blocks forever")
+			}
+		}
+		// (b) across one static call
+		for _, c := range callsIn(f) {
+			if _, isGo := c.(*ssa.Go); isGo {
+				continue
+			}
+			g := c.Common().StaticCallee()
+			if g == nil || g.Blocks == nil || g.Pkg == nil || !strings.HasPrefix(g.Pkg.Pkg.Path(), modPath) || g == f {
+				continue
+			}
+			for _, l := range mutexCallsIn(p, g) {
+				if l.deferred || (l.kind != "Lock" && l.kind != "RLock") || !strings.HasPrefix(l.obj, "P:") {
+					continue
+				}
+				root := l.obj[2:]
+				path := ""
+				if i := strings.Index(root, "."); i >= 0 {
+					root, path = root[:i], root[i:]
+				}
+				pi := -1
+				for i, prm := range g.Params {
+					if prm.Name() == root {
+						pi = i
+					}
+				}
+				if pi < 0 || pi >= len(c.Common().Args) {
+					continue
+				}
+				// switched off by a constant bool argument?
+				off := false
+				for i, prm := range g.Params {
+					if bt, ok := prm.Type().Underlying().(*types.Basic); !ok || bt.Kind() != types.Bool || i >= len(c.Common().Args) {
+						continue
+					}
+					k, ok := resolve(c.Common().Args[i]).(*ssa.Const)
+					if !ok || k.Value == nil {
+						continue
+					}
+					argTrue := k.Value.String() == "true"
+					if dominatedByParam(l.ins.Block(), prm, !argTrue) {
+						off = true
+					}
+				}
+				if off {
+					continue
+				}
+				callerObj := objKey(p, c.Common().Args[pi]) + path
+				held := lc.stateAt(f, c.(ssa.Instruction), callerObj, l.mutex, 0)
+				n++
+				if held != lkNone && (l.kind == "Lock" || held == lkExcl) {
+					violations++
+					res.bad(rule, fmt.Sprintf("%s calls %s: %s of %s while the caller holds it", funcName(f), funcName(g), l.kind, l.mutex.Name()), p.pos(c.Pos()), "the callee acquires a mutex that the caller holds at this call ("+lkName(held)+"): the goroutine blocks forever (and everything waiting for that lock with it)")
+				}
+			}
+		}
+	}
+	if violations == 0 {
+		res.ok(rule, "no lock acquired while held", "-", fmt.Sprintf("%d lock acquisitions examined (in place and across one call)", n))
+	}
 }
